@@ -158,21 +158,7 @@ func (o *Oblig) scriptOpt(withModel, relaxed bool) string {
 	}
 	atext := asserts.String()
 	toks := tokenSet(atext)
-	// literal facts first (they may mention nothing else)
 	var lits strings.Builder
-	var lnames []string
-	for n := range r.litAxioms {
-		lnames = append(lnames, n)
-	}
-	sortStrings(lnames)
-	for _, n := range lnames {
-		if toks[n] {
-			for _, a := range r.litAxioms[n] {
-				lits.WriteString(a)
-				lits.WriteByte('\n')
-			}
-		}
-	}
 	for _, d := range r.decls[:o.NDecl] {
 		// (declare-const NAME SORT)
 		if strings.HasPrefix(d, "(declare-const ") {
@@ -191,7 +177,7 @@ func (o *Oblig) scriptOpt(withModel, relaxed bool) string {
 	body.WriteString(atext)
 	text := body.String()
 	b.WriteString(prelude)
-	ax := r.W.axiomText(text + lits.String())
+	ax := r.W.axiomText(text)
 	if o.lite {
 		var keep []string
 		for _, l := range strings.Split(ax, "\n") {
@@ -322,6 +308,21 @@ func (w *World) axiomText(text string) string {
 			}
 		}
 	}
+	var lnames []string
+	for n := range w.lits {
+		lnames = append(lnames, n)
+	}
+	sortStrings(lnames)
+	var litText strings.Builder
+	for _, n := range lnames {
+		if containsSym(all, n) {
+			for _, a := range w.lits[n] {
+				litText.WriteString(a)
+				litText.WriteByte('\n')
+			}
+			all += " blen bat"
+		}
+	}
 	if containsSym(all, "tagty") {
 		n := len(w.TagNames)
 		for id := 1; id <= n; id++ {
@@ -350,6 +351,7 @@ func (w *World) axiomText(text string) string {
 			out.WriteString(g.axioms)
 		}
 	}
+	out.WriteString(litText.String())
 	// spec fns in declaration order (sorted for determinism)
 	for _, name := range w.specFnOrder {
 		if !usedFn[name] {
@@ -439,7 +441,7 @@ func (w *World) prepareSpecs() error {
 				return fmt.Errorf("%s: spec fn %s returns a slice", sf.File, n)
 			}
 			if len(dummy.decls) > 0 {
-				return fmt.Errorf("%s: spec fn %s: body needs auxiliary declarations (string literals are not allowed here)", sf.File, n)
+				return fmt.Errorf("%s: spec fn %s: body needs auxiliary declarations", sf.File, n)
 			}
 			w.specFnDecl[n] = fmt.Sprintf("(define-fun %s (%s) %s %s)", n, strings.Join(ps, " "), smtSort(sf.Ret), body)
 			w.specFnBody[n] = body
